@@ -123,6 +123,9 @@ class Simulator(BaseSimObj):
                     >= self.max_recompute
                 )
             ):
+                # Keep a resolve pending until the new schedule is applied, so that
+                # a run interrupted by the scheduler can be resumed in this period.
+                self._resolve = True
                 new_schedule = self.scheduler.run()
                 self._update_schedules(new_schedule)
                 if self.schedule_history is not None:
